@@ -1,8 +1,10 @@
 SPECIFICATION Spec
 CONSTANTS
     M = 65536
-    W = 1024
-    Band = 8
+    W = 32767
+    DocW = 1024
+    AllPairs = FALSE
+    Band = 48
     Chunks = 256
     ASel = "all"
     CoreDLt = TRUE
@@ -11,4 +13,6 @@ INVARIANTS
     OffsetAgreesCore
     AllLemmas
     AddSubWrap
+    WindowOrder
+    NegativeWitness
 CHECK_DEADLOCK FALSE
